@@ -366,7 +366,7 @@ def execVec (isVec : Bool) (R C : Nat) (mem : Mem (memLen R C)) (t op x : String
     if !tk.mutable then none
     else if op = "smul" then
       match scalarArg isVec R C x with
-      | some (some s) => let mem' := mulAssignScalar tr s mem; some (mem', some (refVals tr mem'))
+      | some (some s) => let mem' := (Stmt.smul tr s).exec mem; some (mem', some (refVals tr mem'))
       | some none => some (mem, none)
       | none => none
     else if op = "set" then
@@ -374,23 +374,24 @@ def execVec (isVec : Bool) (R C : Nat) (mem : Mem (memLen R C)) (t op x : String
       | [i, k] =>
         match i.toNat?, parseScalar k with
         | some i, some k =>
-          match tr.getUnsafe i with
-          | .ok a => let mem' := setElem a k mem; some (mem', some (refVals tr mem'))
-          | .error _ => some (mem, none)
+          if h : i < C then let mem' := (Stmt.set tr ⟨i, h⟩ k).exec mem; some (mem', some (refVals tr mem'))
+          else match tr.getUnsafe i with        -- precondition of get_unsafe violated: `oob`, nothing is executed
+            | .ok _ => none
+            | .error _ => some (mem, none)
         | _, _ => none
       | _ => none
     else
       match vecObj isVec R C x with
       | some (xr, xk) =>
-        if op = "add" then let mem' := addAssign tr xr mem; some (mem', some (refVals tr mem'))
-        else if op = "sub" then let mem' := subAssign tr xr mem; some (mem', some (refVals tr mem'))
-        else if op = "mul" then let mem' := mulAssign tr xr mem; some (mem', some (refVals tr mem'))
+        if op = "add" then let mem' := (Stmt.add tr xr).exec mem; some (mem', some (refVals tr mem'))
+        else if op = "sub" then let mem' := (Stmt.sub tr xr).exec mem; some (mem', some (refVals tr mem'))
+        else if op = "mul" then let mem' := (Stmt.mul tr xr).exec mem; some (mem', some (refVals tr mem'))
         else if op = "asg" then
           if tk = xk then
             let (mem', tr') := copyAssign tr xr mem
             some (mem', some (refVals tr' mem'))
-          else let mem' := assignConv tr xr mem; some (mem', some (refVals tr mem'))
-        else if op = "ctor" then let mem' := assignValue tr (copy xr mem) mem; some (mem', some (refVals tr mem'))
+          else let mem' := (Stmt.asg tr xr).exec mem; some (mem', some (refVals tr mem'))
+        else if op = "ctor" then let mem' := (Stmt.ctor tr xr).exec mem; some (mem', some (refVals tr mem'))
         else none
       | none => none
   | none => none
@@ -402,7 +403,7 @@ def execMat (R C : Nat) (mem : Mem (memLen R C)) (t op x : String) : Option (Mem
     if !tk.mutable then none
     else if op = "smul" then
       match scalarArg true R C x with
-      | some (some s) => let mem' := mulAssignScalar tr s mem; some (mem', some (refVals tr mem'))
+      | some (some s) => let mem' := (Stmt.smul tr s).exec mem; some (mem', some (refVals tr mem'))
       | some none => some (mem, none)
       | none => none
     else if op = "set" then
@@ -422,14 +423,14 @@ def execMat (R C : Nat) (mem : Mem (memLen R C)) (t op x : String) : Option (Mem
       match matObj true R C x with
       | some (xm, xk) =>
         let xr := xm.s
-        if op = "add" then let mem' := addAssign tr xr mem; some (mem', some (refVals tr mem'))
-        else if op = "sub" then let mem' := subAssign tr xr mem; some (mem', some (refVals tr mem'))
+        if op = "add" then let mem' := (Stmt.add tr xr).exec mem; some (mem', some (refVals tr mem'))
+        else if op = "sub" then let mem' := (Stmt.sub tr xr).exec mem; some (mem', some (refVals tr mem'))
         else if op = "asg" then
           if tk = xk then
             let (mem', tr') := copyAssign tr xr mem
             some (mem', some (refVals tr' mem'))
-          else let mem' := assignConv tr xr mem; some (mem', some (refVals tr mem'))
-        else if op = "ctor" then let mem' := assignValue tr (copy xr mem) mem; some (mem', some (refVals tr mem'))
+          else let mem' := (Stmt.asg tr xr).exec mem; some (mem', some (refVals tr mem'))
+        else if op = "ctor" then let mem' := (Stmt.ctor tr xr).exec mem; some (mem', some (refVals tr mem'))
         else none
       | none => none
   | none => none
